@@ -16,7 +16,8 @@ OWN = {
     "C11": {"reloaded_context_equals_a_new_one", "reloaded_list_is_in_use"},
     "C15": {"first_candidate_is_the_composed_text", "at_most_nine", "english_candidate_iff_enabled_and_not_ansi_and_different", "english_candidate_is_the_raw_keys",
             "non_emoji_candidates_by_distance", "no_candidate_twice", "dictionary_candidates_are_search_answers_wrapped", "pattern_is_anchored",
-            "pattern_has_the_letter_class", "literal_part_has_no_regex_meta_character", "literal_part_is_the_word_without_punctuation", "wildcard_width_by_length"},
+            "pattern_has_the_letter_class", "literal_part_has_no_regex_meta_character", "literal_part_is_the_word_without_punctuation", "wildcard_width_by_length",
+            "every_match_is_offered", "shown_text_is_the_dictionary_word_with_blocked_ligatures", "distance_is_computed_from_the_shown_text"},
     "C16": {"ansi_offers_no_emoji_or_raw_text", "english_candidate_only_when_enabled_and_not_ansi", "english_candidate_iff_enabled_and_not_ansi_and_different",
             "suggestion_carries_the_ansi_switch"},
     "C17": {"punctuation_only_left_untouched", "word_untouched", "leading_quotes_open", "trailing_quotes_close", "smart_quotes_keep_length_and_order",
